@@ -120,7 +120,12 @@ def fmin_bfgs_f(
     f_s.add(fk)
     flag = 0
     re_search = 0
+    # the search is non-monotone and takes unchecked steps after a failed line
+    # search: remember the best point seen
+    best = (fk, xk, gk)
     for k in range(maxiter):
+        if fk < best[0]:
+            best = (fk, xk, gk)
         if norm(gk) <= gtol:
             break
         dki = -np.dot(Hk, gk)
@@ -197,6 +202,9 @@ def fmin_bfgs_f(
             callback(xk)
     else:
         flag = 2
+    if not fk <= best[0]:  # the last point is worse than the best one (or NaN)
+        fk, xk, gk = best
+        flag = flag or 1
     # print("fit final: ", k, p, f_g.ncall)
     s = OptimizeResult()
     s.messgae = message_dict[flag]
@@ -253,6 +261,7 @@ def line_search_nonmonote(
             derphi_star = myfprime(xk + alpha * pk)
             return alpha, 0, 0, phi_star, old_fval, derphi_star
         alpha = c1 * alpha
+    phi_star = f(xk + alpha * pk)  # the value at the returned step
     derphi_star = myfprime(xk + alpha * pk)
     print("not found")
     return alpha, 0, 0, phi_star, old_fval, derphi_star
